@@ -397,6 +397,11 @@ def gen_gen(r):
         for f in fields:
             if any(isinstance(s, Named) and s.name == 'NoInfoW' for s in f[0].subterms()):
                 f[1] = True
+            # ... and a kept member must not need TypeInfo of a skipped parameter (nothing else would bound it)
+            if f[0].kind != 'ph' and any(isinstance(s, P) and skipped[s.k] for s in f[0].subterms()):
+                f[1] = True
+            if f[1]:
+                f[2] = False
     is_enum = r.random() < 0.4
     # instantiation
     inst = []
